@@ -781,20 +781,40 @@ func c17r3(c *core.Ctx) {
 		return true
 	})
 	guardPos := token.NoPos
-	for _, stt := range load.Body.List {
-		if is, ok := stt.(*ast.IfStmt); ok {
-			keys := map[string]bool{}
-			ast.Inspect(is.Cond, func(x ast.Node) bool {
-				if sel, ok := x.(*ast.SelectorExpr); ok {
-					keys[fieldKeyOf(m, sel)] = true
+	isGuard := func(stt ast.Stmt) bool {
+		is, ok := stt.(*ast.IfStmt)
+		if !ok {
+			return false
+		}
+		keys := map[string]bool{}
+		ast.Inspect(is.Cond, func(x ast.Node) bool {
+			if sel, ok := x.(*ast.SelectorExpr); ok {
+				keys[fieldKeyOf(m, sel)] = true
+			}
+			return true
+		})
+		if keys["entityPool.entities"] && keys["entityPool.available"] {
+			for _, b := range is.Body.List {
+				if es, ok := b.(*ast.ExprStmt); ok {
+					if call, ok := es.X.(*ast.CallExpr); ok && m.IsBuiltin(call, "panic") {
+						return true
+					}
 				}
-				return true
-			})
-			if keys["entityPool.entities"] && keys["entityPool.available"] {
-				for _, b := range is.Body.List {
-					if es, ok := b.(*ast.ExprStmt); ok {
-						if call, ok := es.X.(*ast.CallExpr); ok && m.IsBuiltin(call, "panic") {
-							guardPos = is.Pos()
+			}
+		}
+		return false
+	}
+	for _, stt := range load.Body.List {
+		if isGuard(stt) {
+			guardPos = stt.Pos()
+		}
+		// the guard as a helper of its own: a function without effects whose body is the test-and-panic
+		if es, ok := stt.(*ast.ExprStmt); ok {
+			if call, ok := es.X.(*ast.CallExpr); ok {
+				if k, cal, _ := m.Callee(call); k == core.CallStatic && cal != nil && cal.Body != nil && len(c.Eff.Stores(cal)) == 0 {
+					for _, st2 := range cal.Body.List {
+						if isGuard(st2) && guardPos == token.NoPos {
+							guardPos = stt.Pos()
 						}
 					}
 				}
